@@ -664,7 +664,43 @@ func c20Slice(x *mc.X) *mc.Outcome {
 	l := x.Choose(4, "len")
 	elems := []string{"a", "b", "a"}[:l]
 	subj := append([]string{}, elems...)
+	// how the list arrives (Parse): a typed slice, a []any, or a []any that the schema's own coercer shortens
+	// (duplicates dropped) — the size tests speak about the list the schema placed, not about the raw input
+	rep := 0
+	if mode == 0 {
+		rep = x.Choose(3, "input representation")
+	}
+	var input any = subj
 	s := z.Slice(z.String())
+	if rep >= 1 {
+		raw := make([]any, len(subj))
+		for i, e := range subj {
+			raw[i] = e
+		}
+		input = raw
+	}
+	if rep == 2 {
+		s = z.Slice(z.String(), z.WithCoercer(func(d any) (any, error) {
+			seen := map[any]bool{}
+			var out []any
+			for _, e := range d.([]any) {
+				if !seen[e] {
+					seen[e] = true
+					out = append(out, e)
+				}
+			}
+			return out, nil
+		}))
+		var dd []string
+		seen := map[string]bool{}
+		for _, e := range subj {
+			if !seen[e] {
+				seen[e] = true
+				dd = append(dd, e)
+			}
+		}
+		subj = dd
+	}
 	var want bool
 	var name, code string
 	switch ti {
@@ -687,7 +723,7 @@ func c20Slice(x *mc.X) *mc.Outcome {
 	var dest []string
 	skipped := false
 	if mode == 0 {
-		issues = s.Parse(subj, &dest)
+		issues = s.Parse(input, &dest)
 	} else {
 		dest = subj
 		skipped = len(subj) == 0
@@ -699,7 +735,7 @@ func c20Slice(x *mc.X) *mc.Outcome {
 			flat = append(flat, l...)
 		}
 	}
-	return c20Check(name, []string{"Parse", "Validate"}[mode], fmt.Sprintf("%q", subj), skipped, want, code, flat, dest)
+	return c20Check(name, []string{"Parse", "Validate"}[mode], fmt.Sprintf("%q (input representation %d: 0 typed slice, 1 []any, 2 []any shortened by the schema's coercer to this)", subj, rep), skipped, want, code, flat, dest)
 }
 
 func c20SliceInt(x *mc.X) *mc.Outcome {
